@@ -161,18 +161,26 @@ func (q *metaq) wantsKey(k string) bool {
 type fineAuth struct{ hide map[int]bool }
 
 func (a *fineAuth) AuthorizeDatabase(influxql.Privilege, string) bool { return true }
-func (a *fineAuth) AuthorizeQuery(string, *influxql.Query) error     { return nil }
+func (a *fineAuth) AuthorizeQuery(string, *influxql.Query) error      { return nil }
 func (a *fineAuth) AuthorizeSeriesRead(db string, measurement []byte, tags models.Tags) bool {
 	s := stor.SeriesOf(measurement, tags)
 	return s < 0 || !a.hide[s]
 }
 func (a *fineAuth) AuthorizeSeriesWrite(string, []byte, models.Tags) bool { return true }
 
-func genCLeaf(o *tape.Stream, eqOnly bool) *cexp {
+// genCLeaf draws a comparison; half of the time on a (key, value) pair an earlier query of this program used, so
+// that the same term is evaluated in several contexts (alone, under AND, on either side of an OR).
+func genCLeaf(o *tape.Stream, eqOnly bool, terms *[][2]string) *cexp {
 	c := &cexp{O: "="}
-	c.K = stor.TagKeys[o.Choose(len(stor.TagKeys), "ckey")]
-	d := stor.TagDomain(c.K)
-	c.V = d[o.Choose(len(d), "cval")]
+	if len(*terms) > 0 && o.Bool(1, 2, "cterm-repeat") {
+		t := (*terms)[o.Choose(len(*terms), "cterm")]
+		c.K, c.V = t[0], t[1]
+	} else {
+		c.K = stor.TagKeys[o.Choose(len(stor.TagKeys), "ckey")]
+		d := stor.TagDomain(c.K)
+		c.V = d[o.Choose(len(d), "cval")]
+		*terms = append(*terms, [2]string{c.K, c.V})
+	}
 	if !eqOnly && o.Bool(1, 3, "cneq") {
 		c.O = "!="
 	}
@@ -181,17 +189,23 @@ func genCLeaf(o *tape.Stream, eqOnly bool) *cexp {
 
 // genMeta draws a metadata query; half of the time it repeats one drawn earlier in this program (the same
 // condition before and after deletes).
-func genMeta(o *tape.Stream, pool *[]metaq) *metaq {
+func genMeta(o *tape.Stream, pool *[]metaq, terms *[][2]string) *metaq {
 	if len(*pool) > 0 && o.Bool(1, 2, "mq-repeat") {
 		q := (*pool)[o.Choose(len(*pool), "mq-which")]
 		return &q
 	}
 	q := metaq{Q: []string{"values", "keys", "names"}[o.Pick("mq-kind", 3, 2, 1)]}
-	if q.Q != "names" && o.Bool(1, 3, "mq-subset") {
-		mask := 1 + o.Choose(6, "mq-shards")
-		for i := 0; i < nShards; i++ {
-			if mask&(1<<i) != 0 {
-				q.Sh = append(q.Sh, i+1)
+	if q.Q != "names" {
+		// all shards, one shard (the usual case in practice: shards partition time), or two
+		switch o.Pick("mq-subset", 2, 2, 1) {
+		case 1:
+			q.Sh = []int{1 + o.Choose(nShards, "mq-shard")}
+		case 2:
+			skip := o.Choose(nShards, "mq-skip")
+			for i := 0; i < nShards; i++ {
+				if i != skip {
+					q.Sh = append(q.Sh, i+1)
+				}
 			}
 		}
 	}
@@ -211,15 +225,15 @@ func genMeta(o *tape.Stream, pool *[]metaq) *metaq {
 	eqOnly := q.Q == "names"
 	switch o.Pick("mq-filter", 2, 4, 2, 2) {
 	case 1:
-		q.F = genCLeaf(o, eqOnly)
+		q.F = genCLeaf(o, eqOnly, terms)
 	case 2:
 		if eqOnly {
-			q.F = genCLeaf(o, true)
+			q.F = genCLeaf(o, true, terms)
 		} else {
-			q.F = &cexp{O: "and", L: genCLeaf(o, false), R: genCLeaf(o, false)}
+			q.F = &cexp{O: "and", L: genCLeaf(o, false, terms), R: genCLeaf(o, false, terms)}
 		}
 	case 3:
-		q.F = &cexp{O: "or", L: genCLeaf(o, eqOnly), R: genCLeaf(o, eqOnly)}
+		q.F = &cexp{O: "or", L: genCLeaf(o, eqOnly, terms), R: genCLeaf(o, eqOnly, terms)}
 	}
 	if q.Q == "values" && q.M == "" && len(q.TK) == 0 && q.F == nil {
 		q.TK = []string{"host"} // TagValues requires a condition
@@ -538,9 +552,9 @@ func (w *world) runQuery(q *metaq, who string) bool {
 	return true
 }
 
-// unindexedCarrier returns ":series-not-in-index" if a visible live series that carries the name (and matches the
-// condition) is, in a queried shard where it is live, not listed by the index under its measurement: the layout a
-// measurement drop racing with the first write of a series leaves behind (same suffix as on the read side).
+// unindexedCarrier returns the suffix of world.unindexedTag (":series-not-in-index" or
+// ":recreated-series-dropped-from-index") if a visible live series that carries the name (and matches the
+// condition) is, in a queried shard where it is live, not listed by the index under its measurement.
 func (w *world) unindexedCarrier(q *metaq, n name) string {
 	hide := map[int]bool{}
 	if q.Auth {
@@ -564,8 +578,8 @@ func (w *world) unindexedCarrier(q *metaq, n name) string {
 			if !live {
 				continue
 			}
-			if listed, ok := w.indexLists(s, int(sh)); ok && !listed {
-				return ":series-not-in-index"
+			if tag := w.unindexedTag(s, int(sh)); tag != "" {
+				return tag
 			}
 		}
 	}
